@@ -132,6 +132,9 @@ type Engine struct {
 	Trace      bool
 	Hooks      *Hooks
 	AllocHook  func(ps *PathState, fr *frame, instr *ssa.Alloc, addr *value)
+	// ZeroGlobals lists globals of foreign packages that may be read although
+	// their package is never initialised (they are only handed to stubs).
+	ZeroGlobals map[string]bool
 
 	// Workers > 1 explores paths in parallel (each worker its own solver
 	// handle from NewSolver); paths are independent re-executions.
@@ -182,6 +185,7 @@ type PathState struct {
 	Defs         [][2]string // abbreviations introduced by Name
 	sol          *smt.Solver
 	pending      []pendingAssert
+	builders     map[*value]*[]value
 }
 
 type pendingAssert struct {
@@ -341,6 +345,11 @@ func (ps *PathState) Assert(cond value, id string) {
 		ps.asserts = append(ps.asserts, AssertResult{ID: id, Verdict: "holds"})
 		return
 	}
+	if s.T == "false" && (ps.sol == nil || len(ps.syms) == 0) {
+		// concretely false on a feasible path (paths are only entered when feasible)
+		ps.asserts = append(ps.asserts, AssertResult{ID: id, Verdict: "violated", Model: map[string]string{}, PC: append([]string{}, ps.pc...)})
+		return
+	}
 	ps.pending = append(ps.pending, pendingAssert{id: id, term: s.T, npc: len(ps.pc)})
 }
 
@@ -432,7 +441,7 @@ func (e *Engine) explore(fn value, mkArgs func(ps *PathState) []value, before fu
 	if e.MaxSteps == 0 {
 		e.MaxSteps = 2_000_000
 	}
-	if workers < 1 || e.NewSolver == nil {
+	if workers < 1 || (e.NewSolver == nil && e.Solver != nil) {
 		workers = 1
 	}
 	var results []PathResult
